@@ -1296,6 +1296,47 @@ example : ∃ r, (exStopper .absolute 0.01).onEpochEnd (exEvalAt f15 [(1, 1), (2
     (by simp [exStopper])
   exact ⟨_, C18_gen_on_epoch_end_eq_model _ _ _ 2 0.01 d (by simp [exStopper]) (by simp [exStopper]) hd⟩
 
+/-- scripted values 5, 5, 5, … -/
+def f55 : Int → Num ℝ := fun _ => ⟨.py, 5⟩
+
+/-- **length gate, CLOSED at `len = patience`** (patience 1, ONE evaluation, values constant so that the rule itself would
+be met): model and translated `on_epoch_end` both leave `(False, None)` — through `C18_gen_on_epoch_end_gate_closed` and
+through the unconditional `C18_gen_on_epoch_end_eq_model_total`.  A `≥` gate on either side breaks this example (the model
+would read index `-2` of a one-element history: `IndexError`; the generated side would not be the entry state for all
+deviations). -/
+example : (exStopper .absolute 0.01).onEpochEnd (exEvalAt f55 [(1, 5)]) ⟨false, none⟩ 1 = .ok ⟨false, none⟩
+    ∧ (∀ tol dAny : Gen.Fl ℝ, Gen.EarlyStopping.onEpochEnd 1 1 1 tol 1 dAny false none = (false, none)) := by
+  have h := C18_gen_on_epoch_end_gate_closed (exStopper .absolute 0.01) (exEvalAt f55 [(1, 5)]) ⟨false, none⟩ 1
+    (by simp [exStopper]) (Or.inr (by simp [exStopper, exEvalAt, AnyEval.len, EvalState.len]))
+  refine ⟨h.1, fun tol dAny => ?_⟩
+  simpa [exStopper, exEvalAt, AnyEval.len, EvalState.len] using h.2.2 tol dAny
+
+/-- **length gate, OPEN at `len = patience + 1`** (patience 1, TWO evaluations 5, 5: `|5 − 5| = 0 < 0.01`): the model
+stops (`(True, 2)`), and by the unconditional bridge that is the translated `on_epoch_end` on the translated deviation; the
+translated function on `len = 2`, deviation `0` gives `(True, 2)` as well.  A gate `len > patience + 1` on either side breaks
+this example. -/
+example : (exStopper .absolute 0.01).onEpochEnd (exEvalAt f55 [(1, 5), (2, 5)]) ⟨false, none⟩ 2 = .ok ⟨true, some 2⟩
+    ∧ Gen.EarlyStopping.onEpochEnd 2 1 1 (some (0.01 : ℝ)) 2
+        (genDeviation (exStopper .absolute 0.01) (exEvalAt f55 [(1, 5), (2, 5)])) false none = (true, some 2)
+    ∧ Gen.EarlyStopping.onEpochEnd 2 1 1 (some (0.01 : ℝ)) 2 (some 0) false none = (true, some 2) := by
+  have hm : (exStopper .absolute 0.01).onEpochEnd (exEvalAt f55 [(1, 5), (2, 5)]) ⟨false, none⟩ 2 = .ok ⟨true, some 2⟩ := by
+    simp [exStopper, exEvalAt, EarlyStopping.onEpochEnd, gate_pos, AnyEval.len, EvalState.len, EarlyStopping.deviation,
+      EarlyStopping.absoluteChange, EarlyStopping.changeInMetric, AnyEval.value, EvalState.getValue, pyIndex, Dict.getItem,
+      List.lookup, Num.sub, Num.abs, belowTol]
+    norm_num
+  have ht := C18_gen_on_epoch_end_eq_model_total (exStopper .absolute 0.01) (exEvalAt f55 [(1, 5), (2, 5)]) ⟨false, none⟩ 2 0.01
+    (by simp [exStopper]) (by simp [exStopper])
+  rw [hm] at ht
+  have hlen : ((exEvalAt f55 [(1, 5), (2, 5)]).len : Int) = 2 := by simp [exEvalAt, AnyEval.len, EvalState.len]
+  simp only [exStopper, hlen] at ht
+  refine ⟨hm, ?_, ?_⟩
+  · have h1 := congrArg StopState.stop ht
+    have h2 := congrArg StopState.lastEpoch ht
+    simp only at h1 h2
+    exact Prod.ext h1.symm h2.symm
+  · simp [Gen.EarlyStopping.onEpochEnd, Gen.flt]
+    norm_num
+
 /-- **F8 witness, repaired.** Criterion "relative", Python-float metric values, reference value exactly 0.0
 (`M₀ = 0`, `M₁ = M₂ = 5`, patience 1, tolerance 0.01): the second epoch-end (reference 0: degenerate) neither raises —
 before the F8 fix it raised `ZeroDivisionError` out of `fit` — nor stops; the third (`|5 − 5| / |5| = 0 < 0.01`) stops. -/
